@@ -1,6 +1,6 @@
 /* C18 fault injection (see faultinj.h).  Every reference to malloc / calloc /
  * realloc / aligned_alloc / posix_memalign / free / eventfd / epoll_create /
- * epoll_create1 / pipe / pipe2 / socket / accept / accept4 / close in the objects linked into the
+ * epoll_create1 / pipe / pipe2 / socket / accept / accept4 / close / fopen / fclose / fwrite / fflush in the objects linked into the
  * driver (the repository's .c files and the driver itself) is redirected here
  * by the linker; __real_X is the sanitizer's / libc's X. */
 #include "faultinj.h"
@@ -9,6 +9,7 @@
 #include <stdlib.h>
 #include <string.h>
 #include <unistd.h>
+#include <stdio.h>
 
 void *__real_malloc(size_t);
 void *__real_calloc(size_t, size_t);
@@ -23,6 +24,10 @@ int __real_pipe(int[2]);
 int __real_pipe2(int[2], int);
 int __real_socket(int, int, int);
 int __real_close(int);
+FILE *__real_fopen(const char *, const char *);
+int __real_fclose(FILE *);
+size_t __real_fwrite(const void *, size_t, size_t, FILE *);
+int __real_fflush(FILE *);
 int __real_accept(int, void *, void *);
 int __real_accept4(int, void *, void *, int);
 
@@ -41,6 +46,13 @@ static size_t g_nbytes;
 #define MAX_FD 4096
 static unsigned char g_fd[MAX_FD];
 static int g_nfds;
+/* FILE* handles: a third resource class.  Open handles obtained while tracking are live until
+ * fclose; handles closed while tracking are remembered, so that a later fwrite/fflush/fclose on
+ * one of them (use after close, double close) is reported and the process stopped. */
+#define MAX_FILES 64
+static FILE *g_open[MAX_FILES];
+static FILE *g_closed[MAX_FILES];
+static int g_nfiles, g_nclosed;
 
 static void lock(void) { while (__atomic_exchange_n(&g_lock, 1, __ATOMIC_ACQUIRE)) { } }
 static void unlock(void) { __atomic_store_n(&g_lock, 0, __ATOMIC_RELEASE); }
@@ -86,6 +98,7 @@ void fi_begin(void)
 {
 	lock();
 	memset(g_ptr, 0, sizeof(g_ptr)); memset(g_fd, 0, sizeof(g_fd));
+	memset(g_open, 0, sizeof(g_open)); memset(g_closed, 0, sizeof(g_closed)); g_nfiles = 0; g_nclosed = 0;
 	g_nblocks = 0; g_nbytes = 0; g_nfds = 0; g_calls = 0; g_nfaults = 0; g_armed = 0; g_track = 1;
 	unlock();
 }
@@ -103,11 +116,12 @@ int fi_calls(void) { lock(); int v = g_calls; unlock(); return v; }
 int fi_live_blocks(void) { lock(); int v = g_nblocks; unlock(); return v; }
 size_t fi_live_bytes(void) { lock(); size_t v = g_nbytes; unlock(); return v; }
 int fi_live_fds(void) { lock(); int v = g_nfds; unlock(); return v; }
+int fi_live_files(void) { lock(); int v = g_nfiles; unlock(); return v; }
 void fi_settle(void)
 {
 	int stable = 0, last = -1;
 	for (int i = 0; i < 400 && stable < 3; i++) {
-		int v = fi_live_blocks() * 65536 + fi_live_fds();
+		int v = fi_live_blocks() * 65536 + fi_live_fds() * 256 + fi_live_files();
 		if (v == last) stable++; else stable = 0;
 		last = v;
 		usleep(2000);
@@ -194,4 +208,57 @@ int __wrap_close(int fd)
 {
 	if (fd >= 0 && fd < MAX_FD) { lock(); if (g_fd[fd]) { g_fd[fd] = 0; g_nfds--; } unlock(); }
 	return __real_close(fd);
+}
+
+/* ---------------------------------------------------------------- FILE* handles */
+static void file_violation(const char *what, FILE *fp)
+{
+	char msg[160];
+	int n = snprintf(msg, sizeof(msg), "\nfaultinj: FILE* VIOLATION: %s on a handle that was already closed (%p)\n", what, (void *)fp);
+	if (write(2, msg, (size_t)n)) { }
+	_exit(9);
+}
+static int was_closed(FILE *fp)
+{
+	int r = 0;
+	lock();
+	if (g_track) for (int i = 0; i < MAX_FILES; i++) if (g_closed[i] == fp) r = 1;
+	unlock();
+	return r;
+}
+FILE *__wrap_fopen(const char *path, const char *mode)
+{
+	if (fd_attempt()) return NULL;
+	FILE *fp = __real_fopen(path, mode);
+	if (fp) {
+		lock();
+		if (g_track) {
+			for (int i = 0; i < MAX_FILES; i++) if (g_closed[i] == fp) g_closed[i] = NULL;   /* address reused */
+			for (int i = 0; i < MAX_FILES; i++) if (g_open[i] == NULL) { g_open[i] = fp; g_nfiles++; break; }
+		}
+		unlock();
+	}
+	return fp;
+}
+int __wrap_fclose(FILE *fp)
+{
+	if (was_closed(fp)) file_violation("fclose (double close)", fp);
+	lock();
+	for (int i = 0; i < MAX_FILES; i++) if (g_open[i] == fp && fp) {
+		g_open[i] = NULL; g_nfiles--;
+		g_closed[g_nclosed++ % MAX_FILES] = fp;
+		break;
+	}
+	unlock();
+	return __real_fclose(fp);
+}
+size_t __wrap_fwrite(const void *p, size_t a, size_t b, FILE *fp)
+{
+	if (was_closed(fp)) file_violation("fwrite (use after close)", fp);
+	return __real_fwrite(p, a, b, fp);
+}
+int __wrap_fflush(FILE *fp)
+{
+	if (fp && was_closed(fp)) file_violation("fflush (use after close)", fp);
+	return __real_fflush(fp);
 }
